@@ -262,6 +262,30 @@ let disc_mode script =
    done with End_of_file -> ());
   close_in ic
 
+(* ---- the cell abstraction of an image (coq/Spec/Cells.v, theorem cells_safe_iff) *)
+let cells_mode lst =
+  let ic = open_in lst in
+  (try while true do
+     let path = String.trim (input_line ic) in
+     if path <> "" then begin
+       (try
+         let b = read_file path in
+         let rd = rd_of b in
+         let h = parse_hdr rd in
+         if not (hdr_supported h) then Printf.printf "case %s unsupported\nend\n" path
+         else begin
+           let s = cells rd h in
+           let dom = cells_dom rd h in
+           Printf.printf "case %s nodup=%d\n" path (if nodupb dom then 1 else 0);
+           List.iter (fun (c, v) -> if v <> N0 then Printf.printf "R %s %s\n" (string_of_n c) (string_of_n v)) s.rcl;
+           List.iter (fun (i, t) -> if t <> [] then Printf.printf "S %s %s\n" (string_of_n i) (String.concat " " (List.map string_of_n t))) s.sll;
+           Printf.printf "end\n"
+         end
+       with e -> Printf.printf "case %s error\nend\n" path)
+     end
+   done with End_of_file -> ());
+  close_in ic
+
 let () =
   match Array.to_list Sys.argv with
   | [_; "check"; lst] ->
@@ -274,6 +298,7 @@ let () =
   | [_; "map"; img] -> map_one img
   | [_; "dev"; script] -> dev_mode script
   | [_; "disc"; script] -> disc_mode script
+  | [_; "cells"; lst] -> cells_mode lst
   | [_; "hdr"; lst] ->
       (* one hex buffer per line: the specification's reading of the header *)
       let ic = open_in lst in
